@@ -7,6 +7,9 @@ Cases (plain JSON):
       does not apply to the code point falls back to the next applicable one, so every case is a valid spelling)
   {"kind": "int", "spelling": "0x_1F"}            decimal / 0b / 0o / 0x, either case, legal underscores
   {"kind": "float", "spelling": "1_0.5E+0_3", "neg": false}     digits[.digits][e[+-]digits] with legal underscores
+  {"kind": "multi", "lits": [{"s": "1", "neg": false}, {"s": "1.0", "neg": false}, {"s": "true"}, ...]}
+      2-4 number (or true/false) literals in ONE template, drawn so that equal-valued literals of different type
+      (1 / 1.0 / true, 0 / 0.0 / -0.0 / false, 255 / 0xff / 255.0) co-occur: each must keep its own value, type and sign
   {"kind": "num", "s": "1e5"}                     one string of the exhaustive enumeration over 0-9 _ . e E x X o O b B + -
 
 Oracle: the value Python itself assigns to the spelling (ast.literal_eval of each literal; for string cases
@@ -30,7 +33,7 @@ RULE = (
     "character as raw / simple escape / \\x / \\u / \\U / octal / \\N{name}, in both quote styles, split into 1-4 adjacent "
     "literals; integers < 10**40 in decimal/0b/0o/0x of either case with random legal underscores; float spellings drawn from "
     "the grammar digits[.digits][e[+-]digits] with underscores plus boundary values (5e-324, 1.7976931348623157e308, 1e999, "
-    "-0.0 via unary minus); plus the exhaustive number-spelling enumeration. Non-trivial = the spelling differs from "
+    "-0.0 via unary minus); templates with 2-4 number / boolean literals of equal value but different type or sign (1, 1.0, true; 0.0, -0.0; 255, 0xff, 255.0) as call, keyword and filter arguments, set values, operands and display items; plus the exhaustive number-spelling enumeration. Non-trivial = the spelling differs from "
     "repr(value) (an escape, an alternative base, an underscore, a split literal...), or for enumerated strings: the lexer reads "
     "the string as one number token; distinct = distinct case."
 )
@@ -136,6 +139,72 @@ def _check_value(src, expected, label):
         raise core.Violation("%s literal %r: rendered %r / via set %r, expected %r" % (label, src, text, text2, want))
 
 
+def _show(v):
+    return "%s:%s" % (type(v).__name__, repr(v))
+
+
+def _check_multi(case):
+    """Several literals in one template: every literal keeps its own value, type and sign although an equal
+    number of another type was written earlier in the same template."""
+    st = _setup()
+    env = st["env"]
+    srcs, expected = [], []
+    for lit in case["lits"]:
+        s = lit["s"]
+        if s in ("true", "false"):
+            v = s == "true"
+        else:
+            try:
+                v = _py_literal(s)
+            except (SyntaxError, ValueError):
+                raise core.Discard()
+            if type(v) not in (int, float):
+                raise core.Discard()
+        if lit.get("neg"):
+            s, v = "-" + s, -v
+        srcs.append(s)
+        expected.append(v)
+    want = [_show(v) for v in expected]
+    seen = []
+
+    def rec(*args, **kwargs):
+        seen.append([_show(a) for a in args] + [_show(kwargs[k]) for k in sorted(kwargs)])
+        return ""
+
+    n = len(srcs)
+    templates = {
+        "call arguments": "{{ rec(" + ", ".join(srcs) + ") }}",
+        "keyword arguments": "{{ rec(" + ", ".join("k%d=%s" % (i, x) for i, x in enumerate(srcs)) + ") }}",
+        "set values": "".join("{%% set a%d = %s %%}" % (i, x) for i, x in enumerate(srcs)) + "{{ rec(" + ", ".join("a%d" % i for i in range(n)) + ") }}",
+        "filter arguments": "{{ rec(" + ", ".join("nothing|default(%s)" % x for x in srcs) + ") }}",
+        "operands": "{{ rec(" + ", ".join("z + %s" % x for x in srcs) + ") }}",
+    }
+    for name, src in templates.items():
+        del seen[:]
+        try:
+            env.from_string(src).render(rec=rec, z=0)
+        except st["TemplateSyntaxError"] as e:
+            raise core.Violation("literals %r as %s are rejected: %s\n  %s" % (srcs, name, e, src))
+        got = seen[0] if seen else None
+        exp = want if name != "operands" else [_show(0 + v) for v in expected]
+        if got != exp:
+            raise core.Violation("literals %r as %s denote %r, Python's values are %r\n  %s" % (srcs, name, got, exp, src))
+    # printed through set blocks (no data function involved) and as a display through compile_expression
+    text = env.from_string("".join("{%% set a%d = %s %%}" % (i, x) for i, x in enumerate(srcs)) + "|".join("{{ a%d }}" % i for i in range(n))).render()
+    if text != "|".join(repr(v) for v in expected):
+        raise core.Violation("literals %r printed through set blocks: %r, expected %r" % (srcs, text, "|".join(repr(v) for v in expected)))
+    for disp in ("[%s]", "(%s,)"):
+        value = env.compile_expression(disp % ", ".join(srcs), undefined_to_none=False)()
+        if [_show(v) for v in value] != want:
+            raise core.Violation("display %r denotes %r, Python's values are %r" % (disp % ", ".join(srcs), [_show(v) for v in value], want))
+    pairs = [(a, b) for i, a in enumerate(expected) for b in expected[i + 1:]]
+    clash = any(a == b and (type(a) is not type(b) or repr(a) != repr(b)) for a, b in pairs)
+    labels = ["multi"] + (["multi_equal_values_differ_in_type_or_sign"] if clash else [])
+    if any(a == 0 and b == 0 and repr(a) != repr(b) and type(a) is float and type(b) is float for a, b in pairs):
+        labels.append("multi_signed_zero_pair")
+    return core.Outcome(clash, labels)
+
+
 def check_case(case):
     kind = case["kind"]
     if kind == "str":
@@ -190,6 +259,8 @@ def check_case(case):
         if expected == 0.0:
             labels.append("float_zero")
         return core.Outcome(src != repr(expected), labels)
+    if kind == "multi":
+        return _check_multi(case)
     if kind == "num":
         s = case["s"]
         st = _setup()
@@ -332,6 +403,52 @@ def float_cases():
     return st.one_of(gen, gen, gen, reprs)
 
 
+_MULTI_BASES = [0, 0, 0, 0, 1, 1, 1, 2, 3, 7, 10, 16, 100, 255, 1000, 65536, 10**6, 10**15]
+
+
+def _build_multi(t):
+    """2-4 literals around one base value: the same number spelled as int (decimal / hex / binary / underscored), as
+    float (fraction / exponent), as true/false when it is 0 or 1, with and without a unary minus, and a neighbour."""
+    k0, ks = t
+    k0 = (k0 * 0x9E3779B97F4A7C15) % 2**64 >> 20
+    b = _MULTI_BASES[k0 % len(_MULTI_BASES)]
+    lits = []
+    for k in ks:
+        k = (k * 0x9E3779B97F4A7C15) % 2**64 >> 20
+        k, form = divmod(k, 10)
+        k, neg = divmod(k, 4)
+        k, other = divmod(k, 8)
+        v = b + 1 if other == 0 else b
+        if form == 0:
+            s = str(v)
+        elif form == 1:
+            s = hex(v)
+        elif form == 2:
+            s = bin(v) if v < 2**20 else "%d_%03d" % divmod(v, 1000)
+        elif form in (3, 4):
+            s = "%d.0" % v
+        elif form == 5:
+            s = "%de0" % v
+        elif form == 6:
+            s = "%d.00E+0" % v
+        elif form == 7:
+            s = repr(float(v))
+        elif form == 8 and v in (0, 1):
+            lits.append({"s": "true" if v else "false"})
+            continue
+        else:
+            s = "%d.0" % v if k & 1 else str(v)
+        lits.append({"s": s, "neg": neg == 3 or (v == 0 and neg == 2)})
+    return {"kind": "multi", "lits": lits}
+
+
+def multi_cases():
+    import hypothesis.strategies as st
+
+    big = st.integers(0, 2**40)
+    return st.tuples(big, st.lists(big, min_size=2, max_size=4)).map(_build_multi)
+
+
 def enum_cases(maxlen):
     for n in range(1, maxlen + 1):
         for tup in itertools.product(ALPHABET, repeat=n):
@@ -347,13 +464,15 @@ def run_shard(spec, ctx):
     core.hyp_shard(str_cases(), check_case, ctx, ctx.pick(5000, 80000), rec=rec, tag="str")
     core.hyp_shard(int_cases(), check_case, ctx, ctx.pick(2500, 40000), rec=rec, tag="int")
     core.hyp_shard(float_cases(), check_case, ctx, ctx.pick(2500, 40000), rec=rec, tag="float")
+    core.hyp_shard(multi_cases(), check_case, ctx, ctx.pick(1200, 20000), rec=rec, tag="multi")
     core.enum_shard(core.sliced(enum_cases(ctx.pick(4, 5)), ctx.index, ctx.nshards), check_case, ctx, rec=rec)
     return rec
 
 
 def floors(total, tier):
     need = {"surrogate": 50, "astral": 50, "adjacent": 500, "mode_N": 200, "mode_oct": 200, "int_0x": 100, "int_0b": 100,
-            "int_0o": 100, "underscore": 200, "float_inf": 5, "enum_integer": 1000, "enum_float": 1000}
+            "int_0o": 100, "underscore": 200, "float_inf": 5, "multi_equal_values_differ_in_type_or_sign": 500,
+            "multi_signed_zero_pair": 50, "enum_integer": 1000, "enum_float": 1000}
     for lab, n in need.items():
         if total.labels.get(lab, 0) < n:
             return "label %s seen %d times (< %d)" % (lab, total.labels.get(lab, 0), n)
